@@ -21,11 +21,15 @@
   The text layer inside the JSON (`str(location)` / `location_from_string`, `str(int)` / `int(text)`)
   is covered: `ASV.C04.string_roundtrip` (proved for all locations with ≥ 1 part) is used for the
   protocluster and TTA locations, `strInt_intStr` for the numeric qualifiers.
-  The one hypothesis that is not established here: `ModRules.accepts` — C14's contract that every
-  module produced by `build_modules_for_cds`/`combine_modules` can be re-added component by
-  component (part of `Module.valid`; the correspondence runs the real re-adding on built modules).
+  `Module.valid` contains `ModRules.accepts` (re-adding the components one by one raises nothing).
+  Part 1b instantiates the rules with C14's transcription of `classify`/`add_component`
+  (`c14Rules`) and discharges that hypothesis for every module `build_modules_for_cds`,
+  `combine_modules` and the whole `generate_domains` loop produce (C14: `build_modules_good`,
+  `combine_keeps_good`, `chain_total`): no abstract hypothesis is left for NRPS/PKS results.
 -/
 import ASV.Proofs.ResultsGuards
+import ASV.Proofs.ResultsModules
+import ASV.Props.C14
 namespace ASV.C11
 open ASV ASV.Results ASV.Results.Spec
 
@@ -189,6 +193,56 @@ theorem hmmDetection_json_stable (ctx : Ctx) (x : HmmDet) (hv : x.valid ctx = tr
       ∧ y.recordId = x.recordId ∧ y.enabledTypes = x.enabledTypes ∧ y.strictness = x.strictness :=
   ⟨_, HmmDet.fromJson_toJson ctx x hv, RuleRes.detach_detach x.rules, rfl, rfl, rfl⟩
 
+/-! ### Part 1b — NRPS/PKS modules: the re-adding contract discharged with C14's model
+
+  `ModuleOf mo m`: the stored module `mo` (whole HMM hits) is the saved form of C14's module `m`
+  (its components seen through `absC`: hit id, detailed names, coordinates, locus). -/
+
+/-- every module C14 calls `Good` reloads from its JSON under the concrete rules -/
+theorem module_json_roundtrip_good (mo : Module) (m : Modules.Module) (hg : Modules.Good m)
+    (ho : ModuleOf mo m) (hv : ∀ c ∈ mo.components, c.domain.valid = true) :
+    Module.fromJson c14Rules mo.toJson = .reuse mo :=
+  Module.fromJson_toJson c14Rules mo (valid_of_good mo m hg ho hv)
+
+/-- … in particular every module of `build_modules_for_cds`, for all domain lists -/
+theorem module_json_roundtrip_built (ds : List Modules.Domain) (name : String) (h : C14.InputOK ds name)
+    (ms : List Modules.Module) (hb : Modules.build ds name = .ok ms) (m : Modules.Module) (hm : m ∈ ms)
+    (mo : Module) (ho : ModuleOf mo m) (hv : ∀ c ∈ mo.components, c.domain.valid = true) :
+    Module.fromJson c14Rules mo.toJson = .reuse mo :=
+  module_json_roundtrip_good mo m (C14.build_modules_good ds name h ms hb m hm) ho hv
+
+/-- … and every module either gene holds after `combine_modules` (the merged one included) -/
+theorem module_json_roundtrip_combined (cs ps : Int) (cur prev : List Modules.Module)
+    (hp : ∀ m ∈ prev, Modules.Good m) (hc : ∀ m ∈ cur, Modules.Good m) (r : Modules.Combined)
+    (h : Modules.combine cs ps cur prev = .ok r) (m : Modules.Module) (hm : m ∈ r.prev ++ r.cur)
+    (mo : Module) (ho : ModuleOf mo m) (hv : ∀ c ∈ mo.components, c.domain.valid = true) :
+    Module.fromJson c14Rules mo.toJson = .reuse mo :=
+  module_json_roundtrip_good mo m (C14.combine_keeps_good cs ps cur prev hp hc r h m hm) ho hv
+
+/-- the results of a whole `generate_domains` run (any genes, strands, regions; modules merged over
+    gene borders): `x` stores, per gene, valid HMM hits and modules that are saved forms of modules
+    of `chain genes`.  Then `x` reloads to itself, for any number of cycles — no hypothesis about
+    re-adding. -/
+theorem nrpsPks_json_roundtrip_generated (genes : List Modules.Gene)
+    (h : ∀ g ∈ genes, C14.InputOK g.domains g.name) (out : List Modules.GeneResult)
+    (hout : Modules.chain genes = .ok out) (ctx : Ctx) (x : NrpsPks) (hid : x.recordId = ctx.recordId)
+    (hx : ∀ p ∈ x.cds, ctx.cdsNames.contains p.1 = true
+      ∧ (∀ d ∈ p.2.domainHmms, d.valid = true) ∧ (∀ d ∈ p.2.motifHmms, d.valid = true)
+      ∧ ∀ mo ∈ p.2.modules, (∀ c ∈ mo.components, c.domain.valid = true)
+          ∧ ∃ r ∈ out, ∃ m ∈ r.modules, ModuleOf mo m) :
+    NrpsPks.fromJson c14Rules ctx x.toJson = .reuse x
+    ∧ ∀ n, cycles NrpsPks.toJson (NrpsPks.fromJson c14Rules ctx) n x = .reuse x := by
+  obtain ⟨out', hout', hgood⟩ := C14.chain_total genes h
+  rw [hout] at hout'; injection hout' with hout'; subst hout'
+  have hv : x.valid c14Rules ctx = true := by
+    simp only [NrpsPks.valid, Bool.and_eq_true, List.all_eq_true, beq_iff_eq, CDSResult.valid]
+    refine ⟨hid, fun p hp => ?_⟩
+    obtain ⟨h1, h2, h3, h4⟩ := hx p hp
+    refine ⟨h1, ⟨h2, h3⟩, fun mo hmo => ?_⟩
+    obtain ⟨hvc, r, hr, m, hm, ho⟩ := h4 mo hmo
+    exact valid_of_good mo m (hgood r hr m hm) ho hvc
+  exact ⟨NrpsPks.fromJson_toJson c14Rules ctx x hv, fun n => nrpsPks_cycles c14Rules ctx n x hv⟩
+
 /-! ### Part 3 — guards: results saved under another schema, record or settings are never reused -/
 
 theorem nrpsPks_reuse_only_same_schema_record (r : ModRules) (ctx : Ctx) (j : J) (x : NrpsPks)
@@ -274,6 +328,29 @@ theorem hmmer_reuse_only_compatible (ctx : Ctx) (maxE minS : Dec) (j : J) (y : H
   obtain ⟨r1, r2, r3, r4, r5, r6⟩ := HmmerRes.refilter_inv hr
   refine ⟨?_, by rw [r6, h5], r4, r5, x, hx, r3⟩
   simp [hmmerMayReuse, h1, h2, h3, h4, r1, r2]
+
+/-- FULL statement (does not hold, see the witness below): after a change of thresholds the reused
+    hits are exactly the hits a fresh run under the new thresholds reports. -/
+def hmmer_refilter_matches_fresh_full : Prop :=
+  ∀ (x y : HmmerRes) (maxE minS : Dec), x.refilter maxE minS = .reuse y → y.hits = hmmerFresh x.hits maxE minS
+
+/-- proved part: it holds whenever no stored hit lies exactly on a current threshold
+    (complement of the known-finding class KF-C11-refilter-boundary, `hmmerOnBoundary`) -/
+theorem hmmer_refilter_matches_fresh_partial (x y : HmmerRes) (maxE minS : Dec)
+    (h : x.refilter maxE minS = .reuse y) (hb : hmmerOnBoundary x.hits maxE minS = false) :
+    y.hits = hmmerFresh x.hits maxE minS := by
+  obtain ⟨_, _, h3, _⟩ := HmmerRes.refilter_inv h
+  rw [h3, hmmerReference_eq_fresh x.hits maxE minS hb]
+
+/-- negation witness: a hit scoring exactly the new minimum (50.0; stored under 25.0) survives
+    `refilter` (inclusive) although `build_hits` (exclusive) would not report it -/
+def exBoundary : HmmerRes := ⟨"rec1", ⟨1, -2⟩, ⟨25, 0⟩, "/db/pfam/35.0/Pfam-A.hmm", "fullhmmer",
+  [⟨"[100:130](+)", "hit0", "cdsA", "p450", ⟨1, -10⟩, ⟨5, 1⟩, "PF00067.25", "desc", 0, 10, "MAGICMAGIC"⟩]⟩
+theorem hmmer_refilter_boundary_witness : ¬ hmmer_refilter_matches_fresh_full := by
+  intro h
+  have h1 := h exBoundary { exBoundary with score := ⟨5, 1⟩ } ⟨1, -2⟩ ⟨5, 1⟩ (by decide +kernel)
+  revert h1
+  decide +kernel
 
 /-- `refilter` to a laxer threshold is refused -/
 theorem hmmer_refilter_lenient_refused (x : HmmerRes) (maxE minS : Dec)
@@ -368,14 +445,57 @@ theorem regenerate_adds_same_features {α β} (enc : α → J) (dec : J → Outc
     ∃ y, dec (enc x) = .reuse y ∧ adds y = adds x :=
   ⟨x, h x hx, rfl⟩
 
-theorem sideloaded_adds_same_areas (ctx : Ctx) (x : Sideloaded) (hv : x.valid ctx = true) :
-    ∃ y, Sideloaded.regenerate ctx x.toJson = .reuse y
+theorem sideloaded_adds_same_areas (ctx : Ctx) (x : Sideloaded) (hv : x.valid ctx = true)
+    (requested : Option Sideloaded)
+    (hr : ∀ r, requested = some r → r.subregions = x.subregions ∧ r.protoclusters = x.protoclusters) :
+    ∃ y, Sideloaded.regenerate ctx requested x.toJson = .reuse y
       ∧ y.predictedSubregions = x.predictedSubregions ∧ y.predictedProtoclusters = x.predictedProtoclusters := by
   refine ⟨x, ?_, rfl, rfl⟩
   unfold Sideloaded.regenerate
   split
   · rename_i heq; simp [Sideloaded.toJson] at heq
-  · exact Sideloaded.fromJson_toJson ctx x hv
+  · rw [Sideloaded.fromJson_toJson ctx x hv]
+    cases requested with
+    | none => rfl
+    | some r => simp [(hr r rfl).1, (hr r rfl).2]
+
+/-- D56: annotations requested for the current run that differ from the stored ones stop the run;
+    a `reuse` therefore means: nothing requested, or exactly the stored annotations requested -/
+theorem sideloaded_changed_request_refused (ctx : Ctx) (j : J) (x r : Sideloaded)
+    (hj : Sideloaded.fromJson ctx j = .reuse x) (hne : j ≠ .obj [])
+    (h : r.subregions ≠ x.subregions ∨ r.protoclusters ≠ x.protoclusters) :
+    Sideloaded.regenerate ctx (some r) j = .refuse .runtime := by
+  unfold Sideloaded.regenerate
+  split
+  · exact absurd rfl hne
+  · rw [hj]
+    cases h with
+    | inl h => simp [h]
+    | inr h => simp [h]
+
+theorem sideloaded_reuse_only_same_request (ctx : Ctx) (requested : Option Sideloaded) (j : J) (x : Sideloaded)
+    (h : Sideloaded.regenerate ctx requested j = .reuse x) :
+    Sideloaded.fromJson ctx j = .reuse x
+    ∧ ∀ r, requested = some r → r.subregions = x.subregions ∧ r.protoclusters = x.protoclusters := by
+  unfold Sideloaded.regenerate at h
+  split at h
+  · simp at h
+  · cases hy : Sideloaded.fromJson ctx j with
+    | reuse y =>
+      rw [hy] at h
+      cases requested with
+      | none => simp at h; subst h; exact ⟨rfl, fun r hr => by cases hr⟩
+      | some r =>
+        simp only at h
+        split at h
+        · simp at h
+        · rename_i hc
+          simp at h; subst h
+          refine ⟨rfl, fun r' hr' => ?_⟩
+          cases hr'
+          simpa using hc
+    | discard => rw [hy] at h; simp at h
+    | refuse e => rw [hy] at h; simp at h
 
 /-- the protoclusters handed to the record keep location, core, product, cutoff, … — only the
     record's own numbering is absent until they are added again -/
@@ -407,6 +527,18 @@ def exRules : ModRules := ⟨fun _ => true, fun _ _ => true⟩
 def exNrps : NrpsPks := ⟨"rec1", [("cdsA", ⟨[exHit], [], [⟨[⟨exHit, "cdsA"⟩, ⟨.mk "ACP" 510 560 ⟨1, -9⟩ ⟨3, 1⟩ [], "cdsB"⟩], false⟩]⟩)]⟩
 example : exNrps.valid exRules exCtx = true := by decide
 example : NrpsPks.fromJson exRules { exCtx with recordId := "other" } exNrps.toJson = .discard := by rfl
+
+-- the bridge is not vacuous: the module C14's main loop builds from C A PCP is the one `exMod` stores
+def exMod : Module := ⟨[⟨.mk "Condensation_LCL" 10 100 ⟨1, -20⟩ ⟨505, -1⟩ [], "cdsA"⟩,
+  ⟨.mk "AMP-binding" 110 300 ⟨1, -20⟩ ⟨505, -1⟩ [], "cdsA"⟩, ⟨.mk "PCP" 320 380 ⟨1, -20⟩ ⟨505, -1⟩ [], "cdsA"⟩], true⟩
+example : (match Modules.buildGo (exMod.components.map absC) [] (Modules.Module.new true) with
+    | .ok ([], m) => decide (exMod.components.map absC = m.components) && (exMod.firstInCds == m.firstInCds)
+    | _ => false) = true := by decide +kernel
+example : exMod.valid c14Rules = true := by decide +kernel
+-- a module that cannot be re-added (a second starter after other components) is refused
+example : (match Module.fromJson c14Rules (Module.toJson ⟨exMod.components ++ [⟨.mk "PKS_KS" 400 500 ⟨1, -20⟩ ⟨505, -1⟩ [], "cdsA"⟩], true⟩) with
+    | .refuse .value => true
+    | _ => false) = true := by decide +kernel
 
 def exProto : Proto :=
   { loc := .compound [⟨900, 1000, .fwd⟩, ⟨0, 150, .fwd⟩], core := .simple ⟨20, 100, .fwd⟩, tool := "rule-based-clusters",
